@@ -143,6 +143,8 @@ func isAuthorizedResponder(responder *x509.Certificate, issuer *x509.Certificate
 func (c *OCSPRevocationChecker) Provision(ocspConfig *config.OCSPConfig, logger *zap.Logger) error {
 	c.ocspConfig = ocspConfig
 	c.logger = logger
+	//the cache table is looked up once, not on every revocation check: concurrent handshakes share this checker
+	c.cache = cache2go.Cache("ocsp_client")
 	return nil
 }
 
@@ -203,8 +205,6 @@ func (c *OCSPRevocationChecker) filterHTTPOCSPServers(ocspServerList []string) [
 }
 
 func (c *OCSPRevocationChecker) tryGetResponseFromCache(cacheKey string) (*core.RevocationStatus, error) {
-	c.cache = cache2go.Cache("ocsp_client")
-
 	// Let's retrieve the item from the cache.
 	res, err := c.cache.Value(cacheKey)
 	if err == nil {
